@@ -1,7 +1,7 @@
 (** * Handled: which statements the proxy answers by itself (parser.IsQueryHandled,
     parse_select.go) and the independent statement of the rule.  Property C09; the parsed
     selectors are used by C10. *)
-From Coq Require Import List NArith Bool Lia.
+From Coq Require Import List ZArith NArith Bool Lia.
 From CqlProxy Require Import Lib.Val Lib.Util Lib.Regex Gen.LexRules Gen.Tables Model.Lexer Model.Parser.
 Import ListNotations.
 Local Open Scope N_scope.
@@ -162,3 +162,41 @@ Definition handled_spec (cur : bytes) (k : stmt_kind) : bool :=
   | KSelect q tbl => names_system (match q with [] => cur | _ => q end) && names_system_table tbl
   | KOther => false
   end.
+
+(** ** correspondence entry points for C09
+    input  (cur_keyspace text kind qualifier table)   kind: 0 other/unknown, 1 SELECT [qualifier.]table, 2 USE
+    output (handled stmt table_or_keyspace err)       stmt: 0 none, 1 handled SELECT, 2 unhandled SELECT, 3 USE
+    (for end-to-end cases the harness reports only whether the request stayed in the proxy:
+     output (handled) and the model output is cut to the same shape by [e2e] = 1 in input 5) *)
+Definition run_c09 (input : val) : val :=
+  let cur := vB (nthv 0 input) in
+  let q := vB (nthv 1 input) in
+  let e2e := vbool (nthv 5 input) in
+  match ident_of_string cur with
+  | Panic _ => L [I 9]
+  | Err _ | OutOfFuel => L [I 8]
+  | Ok ks =>
+      let '(h, st, err) := is_query_handled ks q in
+      if e2e then L [Ibool h]
+      else
+        match st with
+        | StSelect tbl _ => L [Ibool h; I 1; B tbl; Ibool err]
+        | StDefaultSelect => L [Ibool h; I 2; B []; Ibool err]
+        | StUse k => L [Ibool h; I 3; B k; Ibool err]
+        | StNone => L [Ibool h; I 0; B []; Ibool err]
+        end
+  end.
+
+Definition holds_c09 (input output : val) : val :=
+  let cur := vB (nthv 0 input) in
+  let kind := vZ (nthv 2 input) in
+  let h := vZ (nthv 0 output) in
+  if Z.eqb h 9 then B (str "crashed")
+  else if Z.eqb h 7 then B (str "request-not-answered")
+  else if Z.eqb kind 0 then B []
+  else
+    let k := if Z.eqb kind 2 then KUse else KSelect (vB (nthv 3 input)) (vB (nthv 4 input)) in
+    (* quotes of the current keyspace are those the USE statement was written with *)
+    if Z.eqb h (if handled_spec cur k then 1 else 0) then B []
+    else if Z.eqb h 1 then B (str "statement-outside-the-system-keyspace-answered-by-the-proxy")
+    else B (str "system-table-read-or-use-forwarded-to-the-backend").
